@@ -10,7 +10,10 @@ D=$(readlink -f "$1"); NAME=$2; shift 2
 W=$(mktemp -d /var/tmp/verif-benv-XXXXXX)
 trap 'git -C /repo worktree remove --force "$W/tree" >/dev/null 2>&1; rm -rf "$W"' EXIT
 git -C /repo worktree add -q --detach "$W/tree" HEAD || exit 2
-git -C "$W/tree" apply "$D/patch.diff" || { echo "$NAME: patch does not apply"; exit 1; }
+if ! git -C "$W/tree" apply "$D/patch.diff" 2>/dev/null; then
+	[ -n "${VERIF_BASE_FALLBACK:-}" ] || { echo "$NAME: patch does not apply"; exit 1; }
+	git -C "$W/tree" checkout -q --detach "$VERIF_BASE_FALLBACK" && git -C "$W/tree" apply "$D/patch.diff" || { echo "$NAME: patch does not apply"; exit 1; }
+fi
 (cd "$W/tree/ociregistry" && env -u GOFLAGS go build ./... && env -u GOFLAGS go test -vet=off -count=1 ./... >"$W/s1.log" 2>&1); s1=$?
 (cd "$W/tree/ociregistry/internal/conformance" && env -u GOFLAGS go test -vet=off -count=1 ./... >"$W/s2.log" 2>&1); s2=$?
 if [ $s1 -ne 0 ] || [ $s2 -ne 0 ]; then echo "$NAME: existing suite fails with the change, not kept"; grep -v '^ok\|no test files' "$W/s1.log" "$W/s2.log" | head; exit 1; fi
